@@ -39,6 +39,9 @@ CHECKS = {
     "C13": ("closed-form Schur-complement / moment oracle on the dense form; completion and error-behaviour monitor",
             "Full-rank Gaussians in every input interleaving are marginalised over every subset of real inputs (one step, two steps in both orders, before/after evaluation), normalised, plate-summed, mixture-reduced, integrated against variables and Gaussians and moment-matched; results must complete and equal the closed forms; rank-deficient blocks must raise. Exploration.",
             "trusted: fv/dense.py closed forms, numpy.linalg, scipy logsumexp", "DESIGN.md §6 C13"),
+    "C14": ("pointwise Delta reference; exact mass-conservation identity per batch element and particle; support/range monitor; re-seeding reproducibility; affine-in-noise probe with dense mean/covariance",
+            "Deltas are evaluated at equal/unequal points and reduced/integrated against funsors; discrete tensors (with -inf entries) and full-rank Gaussians are sampled over every kind of variable subset and sample-input layout; the sample's mass must equal the original's for every batch element and particle, points must lie in the support, re-seeding must reproduce them and reparametrised Gaussian samples must be affine in the noise with the dense mean and covariance. Exploration.",
+            "trusted: numpy/scipy, fv/dense.py; numpy global RNG is the only random state of the numpy backend", "DESIGN.md §6 C14"),
     "C15": ("runtime oracle over op-table axioms on edge grids; scalar/0-d/array differential; NaN monitor on safe ops",
             "Every published table entry and every catalogue op is executed on an edge-value grid crossed with random values, shapes and operand orders; numpy/math/scipy arithmetic is the independent oracle. Exploration: held on the grid that was run, nothing beyond.",
             "trusted: numpy/scipy/math arithmetic; carriers as stated in the property (non-negative for max/min with mul, booleans for and/or)", "DESIGN.md §6 C15"),
